@@ -126,4 +126,24 @@ func init() {
 		Assumptions:    []string{"non-.sql files and the body of a file carrying the documented atlas:sum ignore directive are outside the integrity domain", "whitespace-only edits of atlas.sum are not generated", "SHA-256 collisions do not occur"},
 		SimTimeUnit:    "writer / adversary steps",
 	})
+	var c14probes []string
+	for _, c := range clisim.DevCommands {
+		for _, st := range clisim.DevStates {
+			c14probes = append(c14probes, "cell:"+c+":"+st)
+		}
+	}
+	c14probes = append(c14probes, "leftovers-after-crash")
+	add(&simkit.Check{
+		Property: "C14",
+		Parts: []simkit.Part{
+			{Name: "clisim-c14", Fn: clisim.C14, ProcessLevel: true, NeedsCLI: true, Runs: map[string]int{"quick": 800, "thorough": 24000}},
+		},
+		Rule:           "one run = (dev-url command x initial dev state) stratified over the run index (8 commands x 5 states: no file, empty file, user tables with rows, leftovers of a replay killed before restore, view only) + generated directory / SQL schema with real DDL + drawn fault (none, a failing statement at a drawn position, SIGKILL at a drawn replay point) + the follow-up command after a crash; distinct = distinct trace hash",
+		RequiredProbes: c14probes,
+		RequiredFaults: []string{"crash-in-earlier-replay", "crash-in-replay", "statement-failure-in-replay", "non-empty-dev"},
+		Real:           []string{"the whole CLI binary (migrate diff/validate/lint, schema apply/diff/inspect with --dev-url)", "SQLite driver Snapshot/restore, Executor.Replay, DevDriver normalisation, lint DevLoader", "SQLite engine and files"},
+		Stub:           []string{"none (independent observer)"},
+		Assumptions:    []string{"'untouched' is compared on the logical content (sqlite_master text + every row); byte identity of the file is reported as a probe", "a crash inside migrate lint is not simulated (its replay loop has no instrumented point); statement failures inside lint are"},
+		SimTimeUnit:    "CLI invocations",
+	})
 }
